@@ -30,6 +30,9 @@ EXPLANATION = (
     "restricted helper applies the same rotation. cisd_faster == cisd as whole value numbers (an "
     "accumulating scan of scalar contractions is numbered as the same contraction with the scanned axis "
     "summed). "
+    "HOLO-1 on every _calc_energy* (holomorphic in the walker). CAP-1: the Cholesky-vector axis of "
+    "ham_data['chol'] / ['rot_chol'] is never sliced partially inside an estimator without the "
+    "complementary slice. SIB-2 (dependence form) for hand-written restricted energies. "
 )
 NOT_DECIDED = (
     "the half-rotated-integral and Wick formulas as formulas (coefficients, exchange vs Coulomb index "
